@@ -111,6 +111,7 @@ func (r *Runner) checkProperty(id string) int {
 	var violations []vio
 	var knownHits []*Obligation
 	nObl, nDis, nCan, nCanOK, nRestricted := 0, 0, 0, 0, 0
+	deadReturns := []string{} // return statements no execution reaches under the contract (reported, not failed: dead code is legal)
 	byBackend := map[string]int{}
 	solverTime := 0.0
 	var undischarged []string
@@ -144,6 +145,8 @@ func (r *Runner) checkProperty(id string) int {
 					anyRet = true
 					if o.Verdict.Result != "unsat" {
 						retReach = true
+					} else {
+						deadReturns = append(deadReturns, o.Name+" ("+o.Pos+")")
 					}
 				} else if o.Verdict.Result == "unsat" {
 					toolErrs = append(toolErrs, o.Name+": unreachable (contradictory assumptions?)")
@@ -296,7 +299,7 @@ func (r *Runner) checkProperty(id string) int {
 		"undischarged":             undischarged,
 		"known_findings_hit":       kfl,
 		"discharged_only_outside_known_finding_class": nRestricted,
-		"vacuity":                  map[string]any{"canaries": nCan, "canaries_reachable": nCanOK, "rule": "each canary asserts false at a function entry, loop body or return and must NOT be provable"},
+		"vacuity":                  map[string]any{"canaries": nCan, "canaries_reachable": nCanOK, "unreachable_returns": deadReturns, "rule": "each canary asserts false at a function entry, loop body or return and must NOT be provable"},
 		"samples":                  samples,
 		"dropped":                  droppedStatement,
 		"not_decided":              r.eng.notDecided(id),
